@@ -421,3 +421,96 @@ func init() {
 		return true
 	}
 }
+
+// ---- reflect.DeepEqual over boxed values (symbolic scalars allowed)
+
+func deepEqualV(t types.Type, x, y value, depth int) value {
+	if depth > 50 {
+		panic(engineAbort{"unsupported", "reflect.DeepEqual recursion too deep"})
+	}
+	switch ut := t.Underlying().(type) {
+	case *types.Interface:
+		xi, yi := x.(iface), y.(iface)
+		if xi.t == nil || yi.t == nil {
+			return xi.t == nil && yi.t == nil
+		}
+		if !types.Identical(xi.t, yi.t) {
+			return false
+		}
+		return deepEqualV(xi.t, xi.v, yi.v, depth+1)
+	case *types.Slice:
+		xs, ys := x.([]value), y.([]value)
+		if (xs == nil) != (ys == nil) || len(xs) != len(ys) {
+			return false
+		}
+		var r value = true
+		for i := range xs {
+			r = andV(r, deepEqualV(ut.Elem(), xs[i], ys[i], depth+1))
+			if r == false {
+				return false
+			}
+		}
+		return r
+	case *types.Array:
+		xs, ys := x.(array), y.(array)
+		var r value = true
+		for i := range xs {
+			r = andV(r, deepEqualV(ut.Elem(), xs[i], ys[i], depth+1))
+		}
+		return r
+	case *types.Struct:
+		xs, ys := x.(structure), y.(structure)
+		var r value = true
+		for i := 0; i < ut.NumFields(); i++ {
+			r = andV(r, deepEqualV(ut.Field(i).Type(), xs[i], ys[i], depth+1))
+			if r == false {
+				return false
+			}
+		}
+		return r
+	case *types.Pointer:
+		xp, yp := x.(*value), y.(*value)
+		if xp == yp {
+			return true
+		}
+		if xp == nil || yp == nil {
+			return false
+		}
+		return deepEqualV(ut.Elem(), *xp, *yp, depth+1)
+	case *types.Map:
+		xm, ym := x.(*omap), y.(*omap)
+		if (xm == nil) != (ym == nil) || xm.len() != ym.len() {
+			return false
+		}
+		var r value = true
+		it := xm.iter()
+		for {
+			tu := it.next()
+			if !tu[0].(bool) {
+				break
+			}
+			yv, ok := ym.lookup(tu[1])
+			if !ok {
+				return false
+			}
+			r = andV(r, deepEqualV(ut.Elem(), tu[2], yv, depth+1))
+		}
+		return r
+	case *types.Signature:
+		return isNilFunc(x) && isNilFunc(y)
+	}
+	return equalsV(t, x, y)
+}
+
+func init() {
+	externals["reflect.DeepEqual"] = func(fr *frame, a []value) value {
+		xi, yi := a[0].(iface), a[1].(iface)
+		if xi.t == nil || yi.t == nil {
+			return xi.t == nil && yi.t == nil
+		}
+		if !types.Identical(xi.t, yi.t) {
+			return false
+		}
+		return truth(deepEqualV(xi.t, xi.v, yi.v, 0))
+	}
+}
